@@ -259,7 +259,7 @@ def fx_parallel(fx):
     from rules import parallel
     c = _ctx()
     n = parallel.run(c, fx, "src/lib.rs", "par::Tab", "entries", "cache")
-    return n == 2 and _fires(c, "Tab::bad_compact") and not _fires(c, "Tab::ok_compact")
+    return n >= 2 and _fires(c, "Tab::bad_compact") and not _fires(c, "Tab::ok_compact")
 
 
 def fx_simdsign(fx):
@@ -390,3 +390,20 @@ def fx_lanes(fx):
     c = _ctx()
     simdsign.byte_kernels(c, fx)
     return _fires(c, "simdsign::bad_find_nul") and not _fires(c, "simdsign::ok_find_len") and not _fires(c, "simdsign::ok_memcmp16")
+
+
+def fx_inflight(fx):
+    from rules import sync
+    c = _ctx()
+    n = 0
+    for nm in ("ok_loop", "bad_loop"):
+        n += sync.inc_dec_pairing(c, Fn(fx.raw("inflight::W::" + nm)))
+    return n == 2 and _fires(c, "W::bad_loop") and not _fires(c, "W::ok_loop")
+
+
+def fx_lockorder(fx):
+    from rules import sync
+    c1, c2 = _ctx(), _ctx()
+    sync.lock_order(c1, fx, "src/lib.rs", self_ty_filter=r"lockorder_ok::Q")
+    sync.lock_order(c2, fx, "src/lib.rs", self_ty_filter=r"lockorder_bad::Q")
+    return not c1.violations and len(c2.violations) >= 1
